@@ -263,6 +263,21 @@ def gen(seed, tier, want=None):
             hr = "A" if all(c < 128 for c in h) else "U"
             n = fix_needle(cfg, [norm(cfg, hr, h[i]) for i in pos])
         emit(lines, cfg, "FG" if kind != 3 else "FGSE", h, n, rng)
+        if kind == 4:
+            # the match window beyond index 65535 (indices must not be narrowed to 16 bits), with and without a gap
+            for W2, tail in ((70003, "q z"), (65536 + rng.randint(1, 900), "q--z"), (131075, "qz z")):
+                h2 = [ord("x")] * (W2 - len(tail)) + [ord(c) for c in tail]
+                emit(lines, cfg[:3] + rng.choice("01"), "FGS", h2, [ord("q"), ord("z")] if "qz" not in tail else [ord("z"), ord("z")], rng)
+    # ---- low-byte collisions: non-ASCII haystack characters whose low byte equals an ASCII needle byte (a truncating
+    #      comparison between a code point and a byte would accept them) ----
+    for k in range(nbase // 10):
+        cfg = rand_cfg(rng)
+        word = [rng.choice([ord(c) for c in "abrz/ 1X"]) for _ in range(rng.randint(2, 5))]
+        hay = list(word)
+        for j in rng.sample(range(len(word)), rng.randint(1, len(word))):
+            hay[j] = rng.choice([0x3000, 0x0100, 0x4E00, 0x1E00, 0x10400]) + word[j]
+        hay = [rng.choice([ord("x"), 0x3042])] * rng.randint(0, 2) + hay + [ord("y")] * rng.randint(0, 2)
+        emit(lines, cfg, "FGSPOE", hay, fix_needle(cfg, word), rng, all_tags=True)
     return lines
 
 
